@@ -4,7 +4,7 @@
 From Coq Require Import String List NArith ZArith Bool Lia.
 From J5V.lib Require Import Outcome Strcase.
 From J5V.model Require Import RulesDecl RulesWrite RulesSpec Validate RulesSpecDec RulesRead RulesNested RulesNestedSem RulesOneof RulesCompile RulesCompileTree.
-From J5V.proofs Require Import RulesProofs RulesReadProofs RulesNestedProofs RulesNestedSemProofs RulesCompileProofs.
+From J5V.proofs Require Import RulesProofs RulesReadProofs RulesNestedProofs RulesNestedSemProofs RulesOneofProofs RulesCompileProofs.
 Import ListNotations.
 
 (* what stays a restriction of the quantifier: entity.primaryKey only on singular key
@@ -60,4 +60,37 @@ Proof.
   unfold compile_schema in Hc. destruct (tree_front re_ok env s) eqn:Hf; [|discriminate Hc].
   exact (c12_tree re_ok re_match pat_sem (proj1 He) (proj1 (proj2 He)) (engine_id62_bool re_ok re_match pat_sem He)
            env Hwf s path name m v (tree_front_evaluable re_ok env s Hf Hq) Hc Hty).
+Qed.
+
+(* ---- the options of a oneof through the compiler ---- *)
+Lemma compile_plain_props re_ok env ds : forall idx os,
+  compile_props_from re_ok env idx (map plain ds) = Ok os ->
+  write_props_from env idx ds = Ok os /\ forallb (evaluable re_ok) ds = true.
+Proof.
+  induction ds as [|d r IH]; intros idx os Hc.
+  - inversion Hc; subst. split; reflexivity.
+  - cbn [map compile_props_from] in Hc. apply obind_ok in Hc. destruct Hc as (o & Ho & Hc).
+    apply obind_ok in Hc. destruct Hc as (os1 & Hos & Hc). inversion Hc; subst.
+    apply compile_prop_ok in Ho. destruct Ho as (_ & He & o' & Hw & ->).
+    cbn [plain x_prop] in He, Hw. destruct (IH (idx + 1)%N os1 Hos) as [Hws Hev].
+    split.
+    + cbn [write_props_from]. rewrite Hw. cbn [obind]. rewrite Hws. reflexivity.
+    + cbn [forallb]. rewrite He, Hev. reflexivity.
+Qed.
+
+Theorem c12_compiled_members :
+  forall re_ok re_match pat_sem, engine_ok re_ok re_match pat_sem ->
+  forall env ds os fvs,
+    wf_env env = true ->
+    forallb member_decl ds = true ->
+    compile_members re_ok env ds = Ok os -> typed_obj ds fvs = true ->
+    (validate_obj re_ok re_match (defined_numbers env) os fvs = VAccept <-> member_obj pat_sem env ds fvs) /\
+    (validate_obj re_ok re_match (defined_numbers env) os fvs = VReject <-> ~ member_obj pat_sem env ds fvs).
+Proof.
+  intros re_ok re_match pat_sem He env ds os fvs Hwf Hm Hc Hty.
+  unfold compile_members in Hc. apply obind_ok in Hc. destruct Hc as (os0 & Hos & Hc). inversion Hc; subst os.
+  unfold compile_object in Hos. destruct (props_distinct (map plain ds)); [|discriminate Hos].
+  destruct (compile_plain_props re_ok env ds 0%N os0 Hos) as [Hw Hev].
+  exact (c12_members re_ok re_match pat_sem (proj1 He) (proj1 (proj2 He)) (engine_id62_bool re_ok re_match pat_sem He)
+                     env Hwf ds 0%N os0 fvs Hm Hev Hw Hty).
 Qed.
